@@ -109,7 +109,7 @@ func useTables(sharp bool) {
 	hLongInit = allLongInit[:cut(len(allLongInit), 4)]
 	hTypeKey = "kind"
 	if sharp {
-		hTypeKey = "type" // {"type": "<string>"} nested: N4
+		hTypeKey = "type" // {"type": "<string>"} nested: F29
 	}
 	hPrims = [][]interface{}{
 		{nil},
